@@ -348,6 +348,20 @@ def check_dataset(case):
             check_prec(prec_m, est_m, 'prec_from_measurements', method)
 
 
+    else:
+        # the measurement-based estimator on an unbalanced design: a clean refusal (what the tensor
+        # construction does today) or the covariance the statement defines -- never another number
+        try:
+            est_m = N.cov_from_measurements(ds, 'cond', dof=dof, method=method)
+        except Exception:  # noqa: BLE001
+            est_m = None
+        if est_m is not None:
+            require_close(est_m, est, 'unbalanced design (reps %s, dof=%r, %s): cov_from_measurements '
+                          'returned a value that is not the residual covariance' % (
+                              des['reps'], dof, method), 'measurements-on-unbalanced-design',
+                          rtol=1e-8, atol=1e-9 * max(resid_scale, 1e-300))
+
+
 def classify_dataset(case):
     des = case['design']
     p = len(case['meas'][0])
@@ -370,9 +384,11 @@ def dataset_list_case(draw):
     method = draw(st.sampled_from(METHODS))
     balanced = draw(st.booleans())
     sets = []
-    for _ in range(k):
+    # the parts of one recording split by region carry different numbers of channels
+    ps = [p] * k if draw(st.booleans()) else [draw(st.integers(1, 4)) for _ in range(k)]
+    for j in range(k):
         des = draw(gen.design(n_cond_range=(2, 4), reps_range=(2, 3), balanced=balanced))
-        meas = fix_zero_residual(draw(gen.matrix(len(des['obs']), p, kind='grid')), des['obs'])
+        meas = fix_zero_residual(draw(gen.matrix(len(des['obs']), ps[j], kind='grid')), des['obs'])
         sets.append(dict(design=des, meas=meas))
     e = draw(unit_exp)
     for s_ in sets:
@@ -419,8 +435,9 @@ def classify_dataset_list(case):
     dof = case['dof']
     labels = ['method:' + case['method'], 'fn:' + case['fn'], 'k=%d' % len(case['sets']),
               'dof:' + ('none' if dof is None else 'list' if isinstance(dof, list) else 'scalar')]
-    p = len(case['sets'][0]['meas'][0])
-    return labels, p >= 2 and len(case['sets']) >= 2
+    ps = [len(s_['meas'][0]) for s_ in case['sets']]
+    labels.append('channels:' + ('equal' if len(set(ps)) == 1 else 'differ'))
+    return labels, max(ps) >= 2 and len(case['sets']) >= 2
 
 
 SUBCHECKS = [
